@@ -298,6 +298,7 @@ typedef struct BTree_s {
 static PyTypeObject BTreeTypeType;
 static PyTypeObject BTreeType;
 static PyTypeObject BucketType;
+static PyTypeObject SetType;
 
 #define BTREE(O) ((BTree*)(O))
 
